@@ -392,4 +392,9 @@ theorem source_collective_pattern :
     Pomerol.Gen.Split.hamiltonianBroadcastsFromOwner = true ∧
     Pomerol.Gen.Split.twoParticleReducesToRootAndBroadcastsFromOwner = true := ⟨rfl, rfl⟩
 
+/-- The contribution of a part to the frequency table (`accumulate` in `Model/Collect.lean` adds the WHOLE contribution list)
+is what the source does: `table[w] += part(freqs[w])` for every `w < freqs.size()` under a plain `omp parallel for`, so every
+entry is updated exactly once whatever the number of threads (extracted on every run). -/
+theorem source_table_loop : Pomerol.Gen.Split.tableLoopCoversAllFrequencies = true := rfl
+
 end Pomerol.Properties.C06
